@@ -72,6 +72,14 @@ def gen(rng, tier):
         elif rng.random() < 0.08:
             # the point extraction (two index lists): no variable keeps standard dimensions, none stays listed
             c['recipes'].append(['points'] + [rng.randrange(1 << 20) for _ in range(6)])
+        elif rng.random() < 0.1:
+            # a harness-only last step (the model stacks one copy): three or four pieces stacked in one call, judged by the
+            # coherence predicate on the real file (level edges: one more than layers; flags: one row per step)
+            c['recipes'].append(['stackmany'] + [rng.randrange(1 << 20) for _ in range(6)])
+        elif rng.random() < 0.1:
+            # a harness-only last step: one eval call with two statements, the second assigning to a variable of the input
+            # (the model's eval has one); judged by the coherence predicate
+            c['recipes'].append(['eval2'] + [rng.randrange(1 << 20) for _ in range(6)])
         elif rng.random() < 0.12:
             # a last step that leaves the file for its caller to complete: createVariable in place, a copy without variables
             c['recipes'].append([rng.choice(['create', 'copynv'])] + [rng.randrange(1 << 20) for _ in range(6)])
@@ -113,6 +121,9 @@ def build(src):
               YORIG=5000., XCELL=1000., YCELL=500., NCOLS=nc, NROWS=nr)
     if bnd:
         fa['FTYPE'] = 2
+    if src.get('latlon'):
+        # a geographic grid with longitudes counted from 0 to 360 (global model grids), or one that crosses the date line
+        fa.update(GDTYP=1, XORIG=src['latlon'], YORIG=-10., XCELL=2.5, YCELL=2.)
     if src.get('owntflag') and not bnd:
         # the time flags are handed over as an array and the start is not named: it is the first flag
         import datetime
@@ -211,6 +222,10 @@ def coherent(f):
             bad.append('listed variable %s does not exist' % k)
         elif tuple(f.variables[k].dimensions) not in std:
             bad.append('listed variable %s has dimensions %s' % (k, f.variables[k].dimensions))
+    # the list agrees with the content in the other direction too: a variable that can be listed is
+    for k, v in f.variables.items():
+        if k not in names and tuple(v.dimensions) in std and len(k) <= 16 and k not in ('TFLAG', 'ETFLAG'):
+            bad.append('variable %s has the standard dimensions but is not listed' % k)
     for dk, ak in [('ROW', 'NROWS'), ('COL', 'NCOLS'), ('LAY', 'NLAYS')]:
         if dk in f.dimensions and getattr(f, ak, None) != len(f.dimensions[dk]):
             bad.append('%s %s != dimension %s %d' % (ak, getattr(f, ak, None), dk, len(f.dimensions[dk])))
@@ -338,6 +353,13 @@ def resolve(recipe, f):
         return ['mask', recipe[1] % 3 == 0, recipe[2] % 3]      # coords=True and other conditions in a third of the cases
     if k == 'stack':
         return ['stack', ['TSTEP', 'LAY'][r[0] % 2], r[1] % 3 == 0]
+    if k == 'stackmany':
+        return ['stackmany', ['LAY', 'TSTEP', 'LAY'][r[0] % 3], 2 + r[1] % 2]
+    if k == 'eval2':
+        if len(data) < 2:
+            return ['copy']
+        a, b = data[r[0] % len(data)], data[(r[0] + 1) % len(data)]
+        return ['eval2', ['OX = %s + %s; %s = %s / 2' % (a, b, b, b), '%s = %s * 1; %s = %s * 2' % (a, a, b, a)][r[1] % 2]]
     if k == 'restack':
         # files stacked against the order of time: the later part of the file first
         L = dims.get('TSTEP', 0)
@@ -393,6 +415,10 @@ def apply_op(f, op):
         return f.mask(greater=5)
     if k == 'stack':
         return f.stack([f.copy()] if len(op) > 2 and op[2] else f.copy(), op[1])
+    if k == 'stackmany':
+        return f.stack([f.copy() for _ in range(op[2])], op[1])
+    if k == 'eval2':
+        return f.eval(op[1])
     if k == 'restack':
         later, earlier = f.sliceDimensions(TSTEP=slice(op[1], None)), f.sliceDimensions(TSTEP=slice(None, op[1]))
         return later.stack([earlier] if len(op) > 2 and op[2] else earlier, 'TSTEP')
@@ -465,7 +491,8 @@ def tok(op):
 
 def to_line(case, res):
     st = res['init']
-    return 'c10 run %s ops=%s' % (' '.join('%s=%s' % (k, st[k]) for k in ORDER), '|'.join(tok(op) for op in res['ops']) or 'copy')
+    return 'c10 run %s ops=%s' % (' '.join('%s=%s' % (k, st[k]) for k in ORDER),
+                                  '|'.join(tok(op) for op in res['ops'] if op[0] not in ('stackmany', 'eval2')) or 'copy')
 
 
 def diff_state(mtext, st):
@@ -490,6 +517,8 @@ def agree(case, out, res):
     if not res['ops'] or (case['src']['kind'].startswith('griddesc') and case['src']['withcf']):
         return None     # files with a CF `time` variable decode times from it, not from TFLAG: oracle only
     for i, st in enumerate(res['states']):
+        if res['ops'][i][0] in ('stackmany', 'eval2'):
+            break           # harness-only last step: judged by the oracle
         if i >= len(mstates):
             return 'model stopped after %d steps (%s)' % (len(mstates), mstates[-1][:40])
         ms = mstates[i]
